@@ -304,6 +304,44 @@ def proof_error(pr):
         return "forbidden vernacular: %s" % pr["forbidden"][:3]
     return log[-400:]
 
+def definitions_unchanged_by_use(c):
+    """What the generators would write must not depend on what the process handled before: the in-code definitions are dumped in a
+    fresh process and in a process that first put every example envelope through calculate / validate / correction options / correct /
+    replicate; both dumps must be the same (and so both equal the published files, which the rest of the check compares with the first)."""
+    def dump(*args):
+        p = subprocess.run([os.path.join(BIN, "vharness"), "c19dump"] + list(args), stdout=subprocess.PIPE, stderr=subprocess.PIPE, env=GOENV, timeout=300)
+        return p.returncode, p.stdout
+    rc0, fresh = dump()
+    rc1, used = dump("afteruse", REPO)
+    if rc0 != 0 or rc1 != 0:
+        c.report("definitions could not be dumped (fresh rc %s, after use rc %s)" % (rc0, rc1), {"machinery": "vharness c19dump"}, no_input=True)
+        return
+    a, b = json.loads(fresh), json.loads(used)
+    n = 0
+    for kind in a:
+        for name in a[kind]:
+            n += 1
+            c.count("definitions-unchanged-by-use", 1, (kind, name))
+            if a[kind][name] != b.get(kind, {}).get(name):
+                def flat(x, p=""):
+                    if isinstance(x, dict):
+                        for k, v in x.items():
+                            yield from flat(v, p + "/" + k)
+                    elif isinstance(x, list):
+                        for i, v in enumerate(x):
+                            yield from flat(v, p + "/%d" % i)
+                    else:
+                        yield p, x
+                fa, fb = dict(flat(a[kind][name])), dict(flat(b[kind][name]))
+                diff = sorted(k for k in set(fa) | set(fb) if fa.get(k) != fb.get(k))[:3]
+                c.report("the in-code definition of %s %s changes while the process handles documents (first differences: %s): a generator run after use no longer reproduces data/%s/%s.json"
+                         % (kind[:-1], name, ", ".join("%s: %r -> %r" % (k, fa.get(k), fb.get(k)) for k in diff), kind, name),
+                         {"definition": "%s/%s" % (kind, name), "differences": diff, "rerun": "bin/vharness c19dump afteruse <repo>  vs  bin/vharness c19dump",
+                          "clause": "the shipped files are exactly what the in-code definitions and generators produce"})
+    if n == 0:
+        c.report("no definitions dumped", {"machinery": "vharness c19dump"}, no_input=True)
+
+
 def tag_constants_defined(c):
     """A tag key a regime or add-on package declares as a constant AND uses in its code (HasTags, scenario filters ...) must be a tag
     some published definition offers - otherwise the behaviour it switches is unreachable: validation refuses the tag as undefined."""
@@ -383,6 +421,7 @@ def run(c):
     pub = load_published(REPO)
     definitions_conform(c)
     tag_constants_defined(c)
+    definitions_unchanged_by_use(c)
     code = load_in_code()
     currencies = set()
     for f in glob.glob(os.path.join(REPO, "data", "currency", "*.json")):
